@@ -2,6 +2,10 @@ import VlsModel.Model.Policy
 import VlsModel.Gen.FnSimple
 import VlsModel.Gen.FnTxUtil
 import VlsModel.Gen.FnTx
+import VlsModel.Gen.FnFilter
+import VlsModel.Gen.FnOnchain
+import VlsModel.Gen.FnSimpleCommit
+import VlsModel.Gen.FnSimpleSetup
 import VlsModel.Lemmas.FnGen
 /-
 C05 — pieces of the hand-written policy model (`Model/Policy.lean`) proved equal to the function bodies that
@@ -151,5 +155,504 @@ theorem C05_fn_total_value_overflow (i : Info) (h : ¬ i.total ≤ Rs.U64_MAX) :
       · simp [a1, a2, a3, Rs.overflow, bind, Except.bind]
     · simp [a1, a2, Rs.overflow, bind, Except.bind]
   · simp [a1, Rs.overflow, bind, Except.bind]
+
+/-! ## Round 8: the policy filter itself, the on-chain gate, the channel-size check and the whole of
+`SimpleValidator::validate_commitment_tx`
+
+Generated areas (own namespaces, `translate/x_fn.py`): `Gen.FnFilter` (`policy/filter.rs`), `Gen.FnOnchain`
+(`policy/onchain_validator.rs`), `Gen.FnSimpleCommit` (`policy/simple_validator.rs` + the methods it calls in
+`channel.rs`, `tx/tx.rs`, `util/transaction_utils.rs`). -/
+
+/-! ### `PolicyFilter::filter` = `filterEval`: this closes the external `policy_filter_err` of every other tie -/
+
+def ofAction : Gen.Policy.Action → Gen.FnFilter.FilterResult
+  | .error => .Error
+  | .warn => .Warn
+
+def toPF (rs : List Gen.Policy.Rule) : Gen.FnFilter.PolicyFilter :=
+  { rules := rs.map (fun r => { tag := r.tag, is_prefix := r.isPrefix, action := ofAction r.action }) }
+
+/-- the loop with the early `return` of `PolicyFilter::filter` (first matching rule decides, prefix or exact
+    match, no match = `Error`; `Rs.loopM` in the generated text) is the model's `filterEval`, for every rule list and
+    every tag; it never fails -/
+theorem C05_fn_policy_filter (rs : List Gen.Policy.Rule) (tag : String) :
+    (toPF rs).filter tag = .ok (ofAction (filterEval rs tag)) := by
+  unfold Gen.FnFilter.PolicyFilter.filter
+  induction rs with
+  | nil => simp [toPF, filterEval, ofAction, Rs.loopM]
+  | cons r rs ih =>
+    simp only [toPF, List.map_cons, Rs.loopM] at ih ⊢
+    simp only [filterEval, ruleMatches]
+    by_cases hm : (if r.isPrefix = true then String.isPrefixOf r.tag tag else tag == r.tag) = true
+    · simp [hm]
+    · simpa [hm] using ih
+
+/-- `make_policy_error_with_filter`'s test `filter.filter(&tag) == FilterResult::Error` on the generated filter
+    is the external `policy_filter_err` that the ties of this file instantiate (`filt p`) -/
+theorem C05_fn_filt_is_filter (p : Policy) (tag : String) :
+    (toPF p.filter).filter tag
+      = .ok (if filt p tag = true then Gen.FnFilter.FilterResult.Error else Gen.FnFilter.FilterResult.Warn) := by
+  rw [C05_fn_policy_filter]
+  unfold filt
+  cases filterEval p.filter tag <;> rfl
+
+/-! ### `OnchainValidator::ensure_funding_buried_and_unspent` -/
+
+def toOV : Gen.FnOnchain.OnchainValidator := { policy := { min_funding_depth := Gen.Policy.minFundingDepth } }
+
+def toOCh (c : ChainState) : Gen.FnOnchain.ChainState :=
+  { funding_depth := c.fundingDepth, closing_depth := c.closingDepth }
+
+theorem C05_fn_ensure_funding_buried (p : Policy) (c : ChainState) (n : Nat) :
+    rel .spendsActiveUtxo (toOV.ensure_funding_buried_and_unspent (filt p) n (toOCh c))
+      = ensureFundingBuried p c n := by
+  unfold Gen.FnOnchain.OnchainValidator.ensure_funding_buried_and_unspent ensureFundingBuried check policyErr errs
+    Rs.policyErr
+  have hn : Tag.spendsActiveUtxo.name = "policy-commitment-spends-active-utxo" := rfl
+  rw [← hn]
+  simp only [toOV, toOCh, filt]
+  by_cases h0 : n > 0 <;>
+    by_cases h1 : c.fundingDepth < Gen.Policy.minFundingDepth <;>
+    by_cases h2 : c.closingDepth > 0 <;>
+    by_cases h3 : filterEval p.filter Tag.spendsActiveUtxo.name = Gen.Policy.Action.error <;>
+    simp [h0, h1, h2, h3, rel, Rs.fail, bind, Except.bind, pure, Except.pure]
+
+/-! ### `validate_channel_value` and `validate_commitment_tx` -/
+
+def toCT : Gen.Policy.CType → Gen.FnSimpleCommit.CommitmentType
+  | .legacy => .Legacy
+  | .staticRemoteKey => .StaticRemoteKey
+  | .anchors => .Anchors
+  | .anchorsZeroFeeHtlc => .AnchorsZeroFeeHtlc
+
+def toV2 (p : Policy) : Gen.FnSimpleCommit.SimpleValidator :=
+  { policy := { min_delay := p.minDelay, max_delay := p.maxDelay, max_channel_size_sat := p.maxChannelSize,
+                max_htlcs := p.maxHtlcs, max_htlc_value_sat := p.maxHtlcValue, use_chain_state := p.useChainState,
+                min_feerate_per_kw := p.minFeerate, max_feerate_per_kw := p.maxFeerate } }
+
+def toCS (s : Setup) : Gen.FnSimpleCommit.ChannelSetup :=
+  { is_outbound := s.isOutbound, channel_value_sat := s.channelValue, push_value_msat := s.pushMsat,
+    commitment_type := toCT s.ctype }
+
+def toH (h : Htlc) : Gen.FnSimpleCommit.HTLCInfo2 := { value_sat := h.value, cltv_expiry := h.expiry }
+
+def toCI2 (i : Info) : Gen.FnSimpleCommit.CommitmentInfo2 :=
+  { is_counterparty_broadcaster := i.isCp, to_countersigner_value_sat := i.toCountersigner,
+    to_broadcaster_value_sat := i.toBroadcaster, offered_htlcs := i.offered.map toH,
+    received_htlcs := i.received.map toH, feerate_per_kw := i.feerate }
+
+def toCh (c : ChainState) : Gen.FnSimpleCommit.ChainState := { current_height := c.height }
+
+theorem C05_fn_validate_channel_value (p : Policy) (s : Setup) :
+    rel .fundingMax ((toV2 p).validate_channel_value (filt p) (toCS s)) = validateChannelValue p s := by
+  unfold Gen.FnSimpleCommit.SimpleValidator.validate_channel_value validateChannelValue check policyErr errs
+    Rs.policyErr
+  have hn : Tag.fundingMax.name = "policy-funding-max" := rfl
+  rw [← hn]
+  simp only [toV2, toCS, filt]
+  by_cases h1 : s.channelValue > p.maxChannelSize <;>
+    by_cases h3 : filterEval p.filter Tag.fundingMax.name = Gen.Policy.Action.error <;>
+    simp [h1, h3, rel, Rs.fail, bind, Except.bind, pure, Except.pure]
+
+/-- the refusal class of every tag that `validate_commitment_tx` can raise (`Tag.kind` of the model) -/
+def kindOfTag (s : String) : Kind :=
+  if s = "policy-commitment-outputs-trimmed" then .dust
+  else if s = "policy-commitment-htlc-count-limit" then .count
+  else if s = "policy-commitment-htlc-cltv-range" then .expiry
+  else if s = "policy-commitment-payment-velocity" then .overflow
+  else if s = "policy-commitment-htlc-inflight-limit" then .inflight
+  else if s = "policy-commitment-fee-range" then .fee
+  else if s = "policy-commitment-first-no-htlcs" then .first
+  else if s = "policy-commitment-initial-funding-value" then .first
+  else .other
+
+/-- outcome of the generated code read as an outcome of the model: an error carries the class of its tag, a panic
+    or an arithmetic overflow (overflow-checked build) is `Kind.panic` -/
+def relK {α : Type} : Rs.M α → Except Kind α
+  | .ok a => .ok a
+  | .error (.err s) => .error (kindOfTag s)
+  | .error _ => .error .panic
+
+theorem relK_bind {α β : Type} (x : Rs.M α) (f : α → Rs.M β) :
+    relK (x >>= f) = relK x >>= fun a => relK (f a) := by
+  cases x with
+  | ok a => rfl
+  | error e => cases e <;> rfl
+
+@[simp] theorem relK_ok {α : Type} (a : α) : relK (Except.ok a : Rs.M α) = Except.ok a := rfl
+@[simp] theorem relK_pure {α : Type} (a : α) : relK (pure a : Rs.M α) = pure a := rfl
+
+/-- `if c { policy_err!(self, tag, ..) }` -/
+theorem relK_check (p : Policy) (t : Tag) (tag : String) (ht : tag = t.name) (hk : kindOfTag tag = t.kind) (c : Bool) :
+    relK (if c = true then (do let _ ← Rs.policyErr (filt p) tag; pure ()) else pure ()) = check p t c := by
+  subst ht
+  unfold Rs.policyErr check policyErr errs filt
+  cases c <;> by_cases h : filterEval p.filter t.name = Gen.Policy.Action.error <;>
+    simp [h, relK, Rs.fail, hk, bind, Except.bind, pure, Except.pure]
+
+/-- `validate_expiry` of the area `SimpleCommit` (same source function as `C05_fn_validate_expiry`, other generated
+    structure) -/
+theorem relK_validate_expiry (p : Policy) (c : ChainState) (name : String) (expiry : Nat) :
+    relK ((toV2 p).validate_expiry (filt p) name expiry c.height) = validateExpiry p c expiry := by
+  unfold Gen.FnSimpleCommit.SimpleValidator.validate_expiry validateExpiry check policyErr errs Rs.policyErr addU32 Rs.uadd
+  simp only [toV2, filt, Gen.Policy.maxCltvExpiry, Rs.U32_MAX, U32.MAX, Tag.name]
+  by_cases h0 : p.useChainState = true <;>
+    by_cases h1 : expiry ≥ 500000000 <;>
+    by_cases h3 : filterEval p.filter "policy-commitment-htlc-cltv-range" = Gen.Policy.Action.error <;>
+    by_cases h4 : c.height + p.minDelay ≤ 4294967295 <;>
+    by_cases h5 : c.height + p.maxDelay ≤ 4294967295 <;>
+    by_cases h6 : expiry < c.height + p.minDelay <;>
+    by_cases h7 : expiry > c.height + p.maxDelay <;>
+    simp [h0, h1, h3, h4, h5, h6, h7, relK, kindOfTag, Tag.kind, Rs.fail, Rs.overflow, bind, Except.bind, pure,
+      Except.pure]
+
+theorem relK_validate_fee (p : Policy) (sumIn sumOut weight : Nat) (hw : weight ≠ 0) (hin : sumIn ≤ Rs.U64_MAX) :
+    relK ((toV2 p).validate_fee (filt p) "policy-commitment-fee-range" sumIn sumOut weight)
+      = validateFee p .commitmentFeeRange sumIn sumOut weight := by
+  unfold Gen.FnSimpleCommit.SimpleValidator.validate_fee validateFee hard check policyErr errs Rs.policyErr exactFeerate
+  simp only [toV2, filt, Rs.okOr, Rs.ucheckedSub, Tag.name]
+  by_cases h1 : sumOut ≤ sumIn
+  · have h1' : ¬ sumIn < sumOut := Nat.not_lt.mpr h1
+    have hm := (Rs.fee_rate_fits (sumIn - sumOut) (Nat.le_trans (Nat.sub_le _ _) hin)).1
+    have ha := (Rs.fee_rate_fits (sumIn - sumOut) (Nat.le_trans (Nat.sub_le _ _) hin)).2
+    simp only [h1, h1', if_true, Rs.umul, hm, Rs.uadd, ha, Rs.udiv, hw, if_false, Rs.bind_ok, Rs.pure_eq,
+      decide_false]
+    by_cases h2 : ((sumIn - sumOut) * 1000 + 999) / weight < p.minFeerate <;>
+      by_cases h3 : ((sumIn - sumOut) * 1000 + 999) / weight > p.maxFeerate <;>
+      by_cases h4 : filterEval p.filter "policy-commitment-fee-range" = Gen.Policy.Action.error <;>
+      simp [h2, h3, h4, relK, kindOfTag, Tag.kind, Rs.fail, bind, Except.bind, pure, Except.pure]
+  · have h1' : sumIn < sumOut := Nat.lt_of_not_le h1
+    simp [h1, h1', relK, kindOfTag, Rs.fail, bind, Except.bind]
+
+/-- one HTLC loop of `validate_commitment_tx` (`for htlc in &info.…_htlcs { validate_expiry(..)?; checked_add(..)?;
+    if htlc.value_sat < limit { policy_err!(..) } }`, a `List.foldlM` in the generated text) = `checkHtlcs` -/
+theorem relK_htlc_loop (p : Policy) (c : ChainState) (limit : Nat)
+    (f : Nat → Gen.FnSimpleCommit.HTLCInfo2 → Rs.M Nat)
+    (hf : ∀ acc h, relK (f acc (toH h)) = (do
+        validateExpiry p c h.expiry
+        hard .overflow (decide (acc + h.value > U64.MAX))
+        check p .outputsTrimmed (decide (h.value < limit))
+        pure (acc + h.value))) :
+    ∀ (l : List Htlc) (acc : Nat), relK (List.foldlM f acc (l.map toH)) = checkHtlcs p c limit l acc := by
+  intro l
+  induction l with
+  | nil => intro acc; simp [checkHtlcs]
+  | cons h rest ih =>
+    intro acc
+    simp only [List.map_cons, List.foldlM_cons, relK_bind, hf, checkHtlcs, ih]
+    simp only [bind_assoc, pure_bind]
+
+theorem is_zero_fee_eq (s : Setup) :
+    Gen.FnSimpleCommit.ChannelSetup.is_zero_fee_htlc (toCS s) = s.isZeroFeeHtlc := by
+  unfold Gen.FnSimpleCommit.ChannelSetup.is_zero_fee_htlc Setup.isZeroFeeHtlc
+  simp only [toCS]
+  generalize s.ctype = t
+  cases t <;> rfl
+
+theorem is_anchors_eq (s : Setup) : Gen.FnSimpleCommit.ChannelSetup.is_anchors (toCS s) = s.isAnchors := by
+  unfold Gen.FnSimpleCommit.ChannelSetup.is_anchors Setup.isAnchors
+  simp only [toCS]
+  generalize s.ctype = t
+  cases t <;> rfl
+
+/-- the copy of `expected_commitment_tx_weight` in the area `SimpleCommit` (same source function as
+    `C05_fn_commitment_weight`) -/
+theorem weight_eq (anchors : Bool) (n : Nat) (hn : n * 172 + 1124 ≤ Rs.USIZE_MAX) :
+    Gen.FnSimpleCommit.expected_commitment_tx_weight anchors n = .ok (commitmentWeight anchors n) := by
+  unfold Gen.FnSimpleCommit.expected_commitment_tx_weight commitmentWeight
+  unfold Rs.USIZE_MAX at hn
+  have h1 : n * 172 ≤ 18446744073709551615 := by omega
+  have h2 : 1124 + n * 172 ≤ 18446744073709551615 := by omega
+  have h3 : 724 + n * 172 ≤ 18446744073709551615 := by omega
+  cases anchors <;>
+    simp [Rs.umul, Rs.uadd, Rs.USIZE_MAX, h1, h2, h3, Gen.Policy.commitmentBaseAnchorWeight,
+      Gen.Policy.commitmentBaseWeight, Gen.Policy.commitmentWeightPerHtlc]
+
+theorem toV2_max_htlcs (p : Policy) : (toV2 p).policy.max_htlcs = p.maxHtlcs := rfl
+theorem toV2_max_htlc_value (p : Policy) : (toV2 p).policy.max_htlc_value_sat = p.maxHtlcValue := rfl
+theorem toCS_outbound (s : Setup) : (toCS s).is_outbound = s.isOutbound := rfl
+theorem toCS_value (s : Setup) : (toCS s).channel_value_sat = s.channelValue := rfl
+theorem toCS_push (s : Setup) : (toCS s).push_value_msat = s.pushMsat := rfl
+theorem toCh_height (c : ChainState) : (toCh c).current_height = c.height := rfl
+theorem toH_value (h : Htlc) : (toH h).value_sat = h.value := rfl
+theorem toH_expiry (h : Htlc) : (toH h).cltv_expiry = h.expiry := rfl
+theorem toCI2_cp (i : Info) : (toCI2 i).is_counterparty_broadcaster = i.isCp := rfl
+theorem toCI2_cs (i : Info) : (toCI2 i).to_countersigner_value_sat = i.toCountersigner := rfl
+theorem toCI2_br (i : Info) : (toCI2 i).to_broadcaster_value_sat = i.toBroadcaster := rfl
+theorem toCI2_off (i : Info) : (toCI2 i).offered_htlcs = i.offered.map toH := rfl
+theorem toCI2_rec (i : Info) : (toCI2 i).received_htlcs = i.received.map toH := rfl
+theorem toCI2_fee (i : Info) : (toCI2 i).feerate_per_kw = i.feerate := rfl
+
+theorem value_to_parties_eq (i : Info) :
+    Gen.FnSimpleCommit.CommitmentInfo2.value_to_parties (toCI2 i) = (i.toHolder, i.toCounterparty) := by
+  unfold Gen.FnSimpleCommit.CommitmentInfo2.value_to_parties Info.toHolder Info.toCounterparty
+  by_cases h : i.isCp = true <;> simp [toCI2, h]
+
+/-- the body of both HTLC loops, one step (the shape Lean's `do` gives the generated text: the trailing
+    `pure htlc_value_sat` is moved into both branches of the `if`) -/
+theorem htlc_step (p : Policy) (c : ChainState) (name : String) (limit acc : Nat) (h : Htlc) :
+    relK (do
+        Gen.FnSimpleCommit.SimpleValidator.validate_expiry (filt p) (toV2 p) name (toH h).cltv_expiry c.height
+        let t_7 ← Rs.okOr (Rs.ucheckedAdd Rs.U64_MAX acc (toH h).value_sat) "policy-commitment-payment-velocity"
+        if decide ((toH h).value_sat < limit) = true then do
+          Rs.policyErr (filt p) "policy-commitment-outputs-trimmed"
+          pure t_7
+        else pure t_7)
+      = (do
+        validateExpiry p c h.expiry
+        hard .overflow (decide (acc + h.value > U64.MAX))
+        check p .outputsTrimmed (decide (h.value < limit))
+        pure (acc + h.value)) := by
+  simp only [relK_bind, toH_value, toH_expiry, relK_validate_expiry]
+  cases validateExpiry p c h.expiry with
+  | error e => rfl
+  | ok u =>
+    by_cases hle : acc + h.value ≤ 18446744073709551615
+    · have hgt : ¬ 18446744073709551615 < acc + h.value := by omega
+      by_cases hlt : h.value < limit <;>
+        by_cases hflt : filterEval p.filter "policy-commitment-outputs-trimmed" = Gen.Policy.Action.error <;>
+        simp [hle, hgt, hlt, hflt, Rs.okOr, Rs.ucheckedAdd, Rs.U64_MAX, U64.MAX, hard, check, policyErr, errs,
+          Rs.policyErr, filt, Tag.name, Tag.kind, kindOfTag, relK, Rs.fail, bind, Except.bind, pure, Except.pure]
+    · have hgt : 18446744073709551615 < acc + h.value := by omega
+      by_cases hlt : h.value < limit <;>
+        by_cases hflt : filterEval p.filter "policy-commitment-outputs-trimmed" = Gen.Policy.Action.error <;>
+        simp [hle, hgt, hlt, hflt, Rs.okOr, Rs.ucheckedAdd, Rs.U64_MAX, U64.MAX, hard, check, policyErr, errs,
+          Rs.policyErr, filt, Tag.name, Tag.kind, kindOfTag, relK, Rs.fail, bind, Except.bind, pure, Except.pure]
+
+/-- either HTLC loop of the generated `validate_commitment_tx` = `checkHtlcs` -/
+theorem relK_loop (p : Policy) (c : ChainState) (name : String) (limit : Nat) (l : List Htlc) (acc : Nat) :
+    relK (List.foldlM (fun htlc_value_sat htlc => do
+        Gen.FnSimpleCommit.SimpleValidator.validate_expiry (filt p) (toV2 p) name htlc.cltv_expiry c.height
+        let t_7 ← Rs.okOr (Rs.ucheckedAdd Rs.U64_MAX htlc_value_sat htlc.value_sat) "policy-commitment-payment-velocity"
+        if decide (htlc.value_sat < limit) = true then do
+          Rs.policyErr (filt p) "policy-commitment-outputs-trimmed"
+          pure t_7
+        else pure t_7) acc (l.map toH)) = checkHtlcs p c limit l acc :=
+  relK_htlc_loop p c limit _ (fun acc h => htlc_step p c name limit acc h) l acc
+
+/-- `if c { policy_err!(self, tag, ..) }; rest` (Lean's `do` copies `rest` into both branches) -/
+theorem relK_ite_policy {α : Type} (p : Policy) (t : Tag) (tag : String) (ht : tag = t.name) (hk : kindOfTag tag = t.kind)
+    (c : Bool) (R : Rs.M α) :
+    relK (if c = true then (do Rs.policyErr (filt p) tag; R) else R) = (do check p t c; relK R) := by
+  subst ht
+  unfold Rs.policyErr check policyErr errs filt
+  cases c <;> by_cases h : filterEval p.filter t.name = Gen.Policy.Action.error <;>
+    simp [h, relK, Rs.fail, hk, bind, Except.bind, pure, Except.pure]
+
+/-- `a.checked_add(b).ok_or_else(|| policy_error("policy-commitment-payment-velocity", ..))?` -/
+theorem relK_checked_add (a b : Nat) :
+    relK (Rs.okOr (Rs.ucheckedAdd Rs.U64_MAX a b) "policy-commitment-payment-velocity")
+      = (do hard .overflow (decide (a + b > U64.MAX)); pure (a + b)) := by
+  by_cases h : a + b ≤ 18446744073709551615
+  · have hgt : ¬ 18446744073709551615 < a + b := by omega
+    simp [h, hgt, Rs.okOr, Rs.ucheckedAdd, Rs.U64_MAX, U64.MAX, hard, relK, kindOfTag, Rs.fail, bind, Except.bind, pure,
+      Except.pure]
+  · have hgt : 18446744073709551615 < a + b := by omega
+    simp [h, hgt, Rs.okOr, Rs.ucheckedAdd, Rs.U64_MAX, U64.MAX, hard, relK, kindOfTag, Rs.fail, bind, Except.bind, pure,
+      Except.pure]
+
+/-- **`SimpleValidator::validate_commitment_tx`, the whole function** (dust of both main outputs, HTLC count, both
+    HTLC loops with expiry / running `checked_add` / trim limit, in-flight limit, expected weight, the two `checked_add`s,
+    `validate_fee`, the initial-commitment rules, and the order of all of them) is the model's `validateCommitmentTx`,
+    outcome by outcome (`relK`: same refusal class, panic ↔ panic), for every policy, filter, setup, chain state,
+    commitment number and content.  Hypotheses = what the callers guarantee by typing: the feerate is a `u32`, the
+    channel value a `u64`, the HTLC vectors fit in memory; and LDK's `htlc_{timeout,success}_tx_weight` return
+    663 / 703 for the non-zero-fee feature sets `ChannelSetup::features()` builds (externals; the only place they
+    are consulted). -/
+theorem C05_fn_validate_commitment_tx {CF : Type} (p : Policy) (s : Setup) (c : ChainState) (n : Nat) (i : Info)
+    (es : Gen.FnSimpleCommit.EnforcementState) (point : Nat)
+    (extF : Gen.FnSimpleCommit.ChannelSetup → CF) (extT extS : CF → Nat)
+    (hT : s.isZeroFeeHtlc = false → extT (extF (toCS s)) = htlcTimeoutWeight)
+    (hS : s.isZeroFeeHtlc = false → extS (extF (toCS s)) = htlcSuccessWeight)
+    (hf : i.feerate ≤ Rs.U32_MAX)
+    (hn : (i.offered.length + i.received.length) * 172 + 1124 ≤ Rs.USIZE_MAX)
+    (hv : s.channelValue ≤ Rs.U64_MAX) :
+    relK (Gen.FnSimpleCommit.SimpleValidator.validate_commitment_tx (filt p) extF extT extS (toV2 p) es n point
+            (toCS s) (toCh c) (toCI2 i)) = validateCommitmentTx p s c n i := by
+  have hlen : Rs.uadd Rs.USIZE_MAX i.offered.length i.received.length
+      = Except.ok (i.offered.length + i.received.length) := by
+    unfold Rs.uadd
+    rw [if_pos (by omega)]; rfl
+  have hw := weight_eq s.isAnchors (i.offered.length + i.received.length) hn
+  have hwpos : commitmentWeight s.isAnchors (i.offered.length + i.received.length) ≠ 0 := by
+    unfold commitmentWeight
+    cases s.isAnchors <;>
+      simp [Gen.Policy.commitmentBaseAnchorWeight, Gen.Policy.commitmentBaseWeight]
+  have hfee := fun so => relK_validate_fee p s.channelValue so _ hwpos hv
+  have e1 : ∀ {α : Type} (cc : Bool) (R : Rs.M α), _ := fun {α} cc R =>
+    relK_ite_policy (α := α) p .outputsTrimmed "policy-commitment-outputs-trimmed" rfl (by simp [kindOfTag, Tag.kind]) cc R
+  have e2 : ∀ {α : Type} (cc : Bool) (R : Rs.M α), _ := fun {α} cc R =>
+    relK_ite_policy (α := α) p .htlcCountLimit "policy-commitment-htlc-count-limit" rfl (by simp [kindOfTag, Tag.kind]) cc R
+  have e3 : ∀ {α : Type} (cc : Bool) (R : Rs.M α), _ := fun {α} cc R =>
+    relK_ite_policy (α := α) p .htlcInflightLimit "policy-commitment-htlc-inflight-limit" rfl (by simp [kindOfTag, Tag.kind]) cc R
+  have e4 : ∀ {α : Type} (cc : Bool) (R : Rs.M α), _ := fun {α} cc R =>
+    relK_ite_policy (α := α) p .firstNoHtlcs "policy-commitment-first-no-htlcs" rfl (by simp [kindOfTag, Tag.kind]) cc R
+  have e5 : ∀ {α : Type} (cc : Bool) (R : Rs.M α), _ := fun {α} cc R =>
+    relK_ite_policy (α := α) p .initialFundingValue "policy-commitment-initial-funding-value" rfl
+      (by simp [kindOfTag, Tag.kind]) cc R
+  unfold Gen.FnSimpleCommit.SimpleValidator.validate_commitment_tx validateCommitmentTx
+  have hdT : ∀ x, Rs.udiv x 1000 = Except.ok (x / 1000) := by intro x; simp [Rs.udiv]
+  by_cases hz : s.isZeroFeeHtlc = true
+  · by_cases hn0 : n = 0 <;> by_cases ho : s.isOutbound = true <;>
+      simp only [toV2_max_htlcs, toV2_max_htlc_value, toCS_outbound, toCS_value, toCS_push, toCI2_cs, toCI2_br,
+        toCI2_off, toCI2_rec, toCI2_fee, toCh_height, List.length_map, is_zero_fee_eq, is_anchors_eq, value_to_parties_eq,
+        hlen, hw, hdT, Rs.bind_ok, pure_bind, hz, hn0, ho, beq_iff_eq, if_true, if_false, offeredDustLimit,
+        receivedDustLimit, Gen.Policy.minChanDustLimit, Bool.false_eq_true] <;>
+      simp only [e1, e2, e3, e4, e5, relK_bind, relK_loop, relK_checked_add, hfee, relK_ok, relK_pure, bind_assoc,
+        pure_bind] <;>
+      (simp [Gen.Policy.minChanDustLimit]; try rfl)
+  · have hzf : s.isZeroFeeHtlc = false := by simpa using hz
+    have hT' := hT hzf
+    have hS' := hS hzf
+    have hmT : Rs.umul Rs.U64_MAX i.feerate htlcTimeoutWeight = Except.ok (i.feerate * htlcTimeoutWeight) := by
+      unfold Rs.umul Rs.U64_MAX htlcTimeoutWeight
+      unfold Rs.U32_MAX at hf
+      rw [if_pos (by omega)]; rfl
+    have hmS : Rs.umul Rs.U64_MAX i.feerate htlcSuccessWeight = Except.ok (i.feerate * htlcSuccessWeight) := by
+      unfold Rs.umul Rs.U64_MAX htlcSuccessWeight
+      unfold Rs.U32_MAX at hf
+      rw [if_pos (by omega)]; rfl
+    have haT : Rs.uadd Rs.U64_MAX 330 (i.feerate * htlcTimeoutWeight / 1000)
+        = Except.ok (330 + i.feerate * htlcTimeoutWeight / 1000) := by
+      unfold Rs.uadd Rs.U64_MAX htlcTimeoutWeight
+      unfold Rs.U32_MAX at hf
+      rw [if_pos (by omega)]; rfl
+    have haS : Rs.uadd Rs.U64_MAX 330 (i.feerate * htlcSuccessWeight / 1000)
+        = Except.ok (330 + i.feerate * htlcSuccessWeight / 1000) := by
+      unfold Rs.uadd Rs.U64_MAX htlcSuccessWeight
+      unfold Rs.U32_MAX at hf
+      rw [if_pos (by omega)]; rfl
+    by_cases hn0 : n = 0 <;> by_cases ho : s.isOutbound = true <;>
+      simp only [toV2_max_htlcs, toV2_max_htlc_value, toCS_outbound, toCS_value, toCS_push, toCI2_cs, toCI2_br,
+        toCI2_off, toCI2_rec, toCI2_fee, toCh_height, List.length_map, is_zero_fee_eq, is_anchors_eq, value_to_parties_eq,
+        hlen, hw, hdT, hT', hS', hmT, hmS, haT, haS, Rs.bind_ok, pure_bind, hzf, hn0, ho, beq_iff_eq, if_true, if_false,
+        offeredDustLimit, receivedDustLimit, Gen.Policy.minDustLimit, Bool.false_eq_true] <;>
+      simp only [e1, e2, e3, e4, e5, relK_bind, relK_loop, relK_checked_add, hfee, relK_ok, relK_pure, bind_assoc,
+        pure_bind] <;>
+      (simp [Gen.Policy.minChanDustLimit]; try rfl)
+
+/-! ### `validate_setup_channel` (area `SimpleSetup`; the wallet is an external) -/
+
+def toCT4 : Gen.Policy.CType → Gen.FnSimpleSetup.CommitmentType
+  | .legacy => .Legacy
+  | .staticRemoteKey => .StaticRemoteKey
+  | .anchors => .Anchors
+  | .anchorsZeroFeeHtlc => .AnchorsZeroFeeHtlc
+
+def toV4 (p : Policy) : Gen.FnSimpleSetup.SimpleValidator :=
+  { policy := { min_delay := p.minDelay, max_delay := p.maxDelay } }
+
+def toCS4 (s : Setup) : Gen.FnSimpleSetup.ChannelSetup Nat :=
+  { holder_selected_contest_delay := s.holderDelay, holder_shutdown_script := s.upfront,
+    counterparty_selected_contest_delay := s.cpDelay, commitment_type := toCT4 s.ctype }
+
+def kindOfTagS (s : String) : Kind :=
+  if s = "policy-channel-safe-type" then .safeType
+  else if s = "policy-channel-contest-delay-range-holder" then .delay
+  else if s = "policy-channel-contest-delay-range-counterparty" then .delay
+  else if s = "policy-mutual-destination-allowlisted" then .dest
+  else .other
+
+def relS {α : Type} : Rs.M α → Except Kind α
+  | .ok a => .ok a
+  | .error (.err s) => .error (kindOfTagS s)
+  | .error _ => .error .panic
+
+theorem relS_bind {α β : Type} (x : Rs.M α) (f : α → Rs.M β) :
+    relS (x >>= f) = relS x >>= fun a => relS (f a) := by
+  cases x with
+  | ok a => rfl
+  | error e => cases e <;> rfl
+
+@[simp] theorem relS_ok {α : Type} (a : α) : relS (Except.ok a : Rs.M α) = Except.ok a := rfl
+@[simp] theorem relS_pure {α : Type} (a : α) : relS (pure a : Rs.M α) = pure a := rfl
+
+theorem relS_ite_policy {α : Type} (p : Policy) (t : Tag) (tag : String) (ht : tag = t.name) (hk : kindOfTagS tag = t.kind)
+    (c : Bool) (R : Rs.M α) :
+    relS (if c = true then (do Rs.policyErr (filt p) tag; R) else R) = (do check p t c; relS R) := by
+  subst ht
+  unfold Rs.policyErr check policyErr errs filt
+  cases c <;> by_cases h : filterEval p.filter t.name = Gen.Policy.Action.error <;>
+    simp [h, relS, Rs.fail, hk, bind, Except.bind, pure, Except.pure]
+
+theorem relS_validate_delay (p : Policy) (t : Tag) (name : String)
+    (ht : t.name = "policy-channel-contest-delay-range-" ++ name) (hk : kindOfTagS t.name = t.kind) (delay : Nat) :
+    relS ((toV4 p).validate_delay (filt p) name delay) = validateDelay p t delay := by
+  unfold Gen.FnSimpleSetup.SimpleValidator.validate_delay validateDelay check policyErr errs Rs.policyErr
+  rw [← ht]
+  simp only [toV4, filt]
+  by_cases h1 : delay < p.minDelay <;> by_cases h2 : delay > p.maxDelay <;>
+    by_cases h3 : filterEval p.filter t.name = Gen.Policy.Action.error <;>
+    simp [h1, h2, h3, relS, hk, Rs.fail, bind, Except.bind, pure, Except.pure]
+
+theorem isSafe_eq (s : Setup) :
+    ([Gen.FnSimpleSetup.CommitmentType.StaticRemoteKey, Gen.FnSimpleSetup.CommitmentType.AnchorsZeroFeeHtlc].contains
+        (toCS4 s).commitment_type) = isSafeType s.ctype := by
+  unfold isSafeType
+  simp only [toCS4]
+  generalize s.ctype = t
+  cases t <;> rfl
+
+theorem toCS4_cp (s : Setup) : (toCS4 s).counterparty_selected_contest_delay = s.cpDelay := rfl
+theorem toCS4_h (s : Setup) : (toCS4 s).holder_selected_contest_delay = s.holderDelay := rfl
+theorem toCS4_up (s : Setup) : (toCS4 s).holder_shutdown_script = s.upfront := rfl
+
+/-- **`SimpleValidator::validate_setup_channel`, the whole function** (safe commitment type, both contest delays,
+    upfront shutdown script wallet-spendable or allowlisted) = the model's `validateSetupChannel`; the wallet's
+    answers for the upfront script are the model's two flags (`can_spend` does not fail) -/
+theorem C05_fn_validate_setup_channel {W D : Type} (p : Policy) (s : Setup) (w : W) (path : D)
+    (extC : W → D → Nat → Option Bool) (extA : W → Nat → D → Bool)
+    (hC : ∀ sid, s.upfront = some sid → extC w path sid = some s.upfrontSpendable)
+    (hA : ∀ sid, s.upfront = some sid → extA w sid path = s.upfrontAllowlisted) :
+    relS (Gen.FnSimpleSetup.SimpleValidator.validate_setup_channel (filt p) extC extA (toV4 p) w (toCS4 s) path)
+      = validateSetupChannel p s := by
+  have e1 : ∀ {α : Type} (cc : Bool) (R : Rs.M α), _ := fun {α} cc R =>
+    relS_ite_policy (α := α) p .channelSafeType "policy-channel-safe-type" rfl (by simp [kindOfTagS, Tag.kind]) cc R
+  have e2 : ∀ {α : Type} (cc : Bool) (R : Rs.M α), _ := fun {α} cc R =>
+    relS_ite_policy (α := α) p .mutualDestinationAllowlisted "policy-mutual-destination-allowlisted" rfl
+      (by simp [kindOfTagS, Tag.kind]) cc R
+  have d1 := relS_validate_delay p .delayHolder "holder" rfl (by simp [kindOfTagS, Tag.kind, Tag.name])
+  have d2 := relS_validate_delay p .delayCounterparty "counterparty" rfl (by simp [kindOfTagS, Tag.kind, Tag.name])
+  unfold Gen.FnSimpleSetup.SimpleValidator.validate_setup_channel validateSetupChannel
+  cases hu : s.upfront with
+  | none =>
+    simp only [isSafe_eq, toCS4_cp, toCS4_h, toCS4_up, hu]
+    simp only [e1, e2, relS_bind, d1, d2, relS_ok, relS_pure, bind_assoc, pure_bind]
+  | some sid =>
+    have hC' := hC sid hu
+    have hA' := hA sid hu
+    simp only [isSafe_eq, toCS4_cp, toCS4_h, toCS4_up, hu, hC', hA', Rs.okOr, Rs.bind_ok, pure_bind]
+    simp only [e1, e2, relS_bind, d1, d2, relS_ok, relS_pure, bind_assoc, pure_bind]
+    simp
+
+/-! ### non-vacuity: the hypotheses of the round-8 ties are satisfiable, on a non-trivial request -/
+
+def exPolicy : Policy := { Gen.Policy.defaultTestnet with onchain := true }
+def exSetup : Setup := ⟨true, 3000000, 0, 6, 7, .staticRemoteKey, none, false, false⟩
+def exInfo : Info := ⟨true, 1000000, 1989000, [⟨10000, 500, 0⟩], [], 1000⟩
+
+/-- the generated `validate_commitment_tx` on a concrete counterparty commitment with one HTLC (LDK's weight functions
+    instantiated by the constants 663 / 703): same verdict as the model, which accepts it -/
+example :
+    relK (Gen.FnSimpleCommit.SimpleValidator.validate_commitment_tx (filt exPolicy) (fun _ => ()) (fun _ => 663)
+            (fun _ => 703) (toV2 exPolicy) ⟨⟩ 1 (0 : Nat) (toCS exSetup) (toCh ⟨1000, 3, 0⟩) (toCI2 exInfo))
+      = validateCommitmentTx exPolicy exSetup ⟨1000, 3, 0⟩ 1 exInfo :=
+  C05_fn_validate_commitment_tx exPolicy exSetup ⟨1000, 3, 0⟩ 1 exInfo ⟨⟩ 0 _ _ _ (fun _ => rfl) (fun _ => rfl)
+    (by decide) (by decide) (by decide)
+
+/-- first-match semantics on overlapping rules, through the generated `PolicyFilter::filter` -/
+example : (toPF [⟨"policy-commitment-fee-range", false, .error⟩, ⟨"policy-", true, .warn⟩]).filter "policy-commitment-fee-range"
+    = .ok .Error := by
+  rw [C05_fn_policy_filter]; rfl
+
+example : ensureFundingBuried exPolicy ⟨1000, 0, 0⟩ 1 = .error .chain := by rfl
+
+/-- `validate_setup_channel` with an upfront shutdown script the wallet can spend -/
+example :
+    relS (Gen.FnSimpleSetup.SimpleValidator.validate_setup_channel (filt exPolicy) (fun _ _ _ => some true)
+            (fun _ _ _ => false) (toV4 exPolicy) () (toCS4 { exSetup with upfront := some 5, upfrontSpendable := true }) ())
+      = validateSetupChannel exPolicy { exSetup with upfront := some 5, upfrontSpendable := true } :=
+  C05_fn_validate_setup_channel exPolicy { exSetup with upfront := some 5, upfrontSpendable := true } () () _ _
+    (fun _ _ => rfl) (fun _ _ => rfl)
 
 end VlsModel.Props.C05Fn
